@@ -8,6 +8,9 @@ import MalVerif.Py.TieLegacyOldAtt
 `process_model_tie`: on the encoding (`AbsLegacy.encOld`) of a well-formed typed 0.0.39 document, the GENERATED
 `updater_process_model` returns a heap whose abstraction is the state `Legacy.loadOld` computes — started from the
 state the empty heap stands for (`loadOldFrom … (abs (emptyModel name))`) — and raises exactly when `loadOld` rejects.
+`process_model_tie_class`: … and the exception it raises agrees with the error of `loadOld` — the same class
+(`oldErrAbs`) or one of the eight disagreements listed in `OldErrAgree` (`TieLegacyBase.lean`), each of which is realised
+by a witness at the end of this file (`old_class_…`).
 The three loop simulations are in `TieLegacyOldAssets/Assoc/Att.lean`, the composition in `TieLegacyOldCore.lean`.
 The other four generated functions (file layer, dispatch on extension and version) are characterised below.
 -/
@@ -22,6 +25,19 @@ theorem process_model_tie {env : ModelEnv} (hE : EqId env) (files : Files) (fac 
     okSt (updater_process_model files env (encOld nested name d) fac) =
       optSt (loadOldFrom fac.L defsOk (abs (emptyModel name)) d) :=
   process_model_sim files env fac defsOk nested name d (asset_sim env fac defsOk) (assoc_sim hE fac hL nested)
+    (attacker_sim env d.attackers hwf.attackers) hwf hdefs hfuel
+
+/-- **… with the exception class.**  The translated `_process_model` returns a model whose abstraction is the state
+`loadOld` computes; or it raises `e`, and `loadOld` rejects with an error `er` that agrees with `e`: the same class
+(`oldErrAbs`), or one of the eight disagreements listed in `OldErrAgree` (each realised: the witnesses at the end of this
+file).  Both sides stop at the same entry of the same loop. -/
+theorem process_model_tie_class {env : ModelEnv} (hE : EqId env) (files : Files) (fac : Factory) (hL : FieldsDistinct fac.L)
+    (defsOk : Key → Bool) (nested : Bool) (name : String) (d : OldDoc) (hwf : OldWf fac.L nested d)
+    (hdefs : DefsOkOf fac d defsOk) (hfuel : d.assets.length ≤ env.whileFuel) :
+    match updater_process_model files env (encOld nested name d) fac with
+    | .ok s' => loadOldFrom fac.L defsOk (abs (emptyModel name)) d = .ok (abs s')
+    | .error e => ∃ er, loadOldFrom fac.L defsOk (abs (emptyModel name)) d = .error er ∧ OldErrAgree e er :=
+  process_model_sim_class files env fac defsOk nested name d (asset_sim env fac defsOk) (assoc_sim hE fac hL nested)
     (attacker_sim env d.attackers hwf.attackers) hwf hdefs hfuel
 
 /-- the hand-written 0.0.39 loader on the old layout of a native document without extras = the hand-written native
@@ -102,4 +118,221 @@ theorem loadsWith_iff {r : Except LErr H} {p : H → Bool} : loadsWith r p = tru
   | ok s => exact ⟨fun h => ⟨s, rfl, h⟩, fun ⟨s', e, h⟩ => by injection e with e; subst e; exact h⟩
   | error e => exact ⟨fun h => (by cases h), fun ⟨s', e', _⟩ => (by cases e')⟩
 
+/-! ### the exception class: every disagreement listed in `OldErrAgree` occurs
+
+On `Legacy.Sample.lang` (classes `Host` with the defense `patched`, `Net`; associations `NetCon` (`hosts`, `nets`), `Peer`).
+Integer keys are evaluated by the kernel; a key that is not a number has to be a string, whose `String.toInt?` the kernel
+cannot evaluate: those witnesses are stated for any key `k` with `k.toInt? = none`. -/
+
+def clsEnv : ModelEnv := { eqA := fun _ _ => false, eqL := fun _ _ => false, whileFuel := 8 }
+def clsFac : Factory := { L := Legacy.Sample.lang, floatOk := fun t => t == "0.0" || t == "1.0" || t == "0.5" }
+def clsFiles : Files :=
+  { json := fun _ => .error .unmodelled, yaml := fun _ => .error .unmodelled, eom := fun _ => .error .unmodelled }
+
+theorem jItems_nil : jItems (PyJ.dict []) = .ok [] := rfl
+
+/-- the first association entry of a document without assets raises: so does the loader -/
+theorem process_model_first_assoc_err (files : Files) (env : ModelEnv) (fac : Factory) (nested : Bool) (name : String)
+    (d : OldDoc) (a : OldAssoc) (rest : List OldAssoc) (hd : d.assets = []) (hl : d.associations = a :: rest) (e : LErr)
+    (h : assocBody env fac (encAssoc nested a) (emptyModel name) = .error e) :
+    updater_process_model files env (encOld nested name d) fac = .error e := by
+  rw [process_model_eq]
+  simp only [enc_metadata, enc_name, enc_assets, enc_assocs, enc_has_attackers, enc_attackers,
+    enc_attackers_keys, jIter_list, bind, Except.bind, newModel, if_true, hd, hl, List.map_nil, List.map_cons,
+    jItems_nil]
+  rw [show (forIn ([] : List (PyJ × PyJ)) ({ name := name } : H) (assetBody env fac)) = .ok { name := name } from rfl]
+  simp only []
+  have h' : assocBody env fac (encAssoc nested a) ({ name := name } : H) = .error e := h
+  rw [forIn_cons_err _ _ _ _ _ h']
+
+/-- the first attacker of a document without assets and associations raises: so does the loader -/
+theorem process_model_first_attacker_err (files : Files) (env : ModelEnv) (fac : Factory) (nested : Bool) (name : String)
+    (d : OldDoc) (a : Key × Ser.AttackerEntry) (rest : List (Key × Ser.AttackerEntry)) (hd : d.assets = [])
+    (hl : d.associations = []) (ht : d.attackers = a :: rest) (e : LErr)
+    (h : attackerBody env (infoOf d.attackers) (keyJ a.1) (emptyModel name) = .error e) :
+    updater_process_model files env (encOld nested name d) fac = .error e := by
+  rw [process_model_eq]
+  simp only [enc_metadata, enc_name, enc_assets, enc_assocs, enc_has_attackers, enc_attackers,
+    enc_attackers_keys, jIter_list, bind, Except.bind, newModel, if_true, hd, hl, List.map_nil, jItems_nil]
+  rw [show (forIn ([] : List (PyJ × PyJ)) ({ name := name } : H) (assetBody env fac)) = .ok { name := name } from rfl]
+  simp only []
+  rw [show (forIn ([] : List PyJ) ({ name := name } : H) (assocBody env fac)) = .ok { name := name } from rfl]
+  simp only []
+  have h' : forIn (d.attackers.map (fun e => keyJ e.1)) ({ name := name } : H) (attackerBody env (infoOf d.attackers)) =
+      .error e := by
+    conv => lhs; arg 1; rw [ht, List.map_cons]
+    exact forIn_cons_err _ _ _ ({ name := name } : H) _ h
+  rw [h']
+
+theorem clsEnv_eqId : EqId clsEnv := ⟨fun _ _ h => (by cases h), fun _ _ h => (by cases h)⟩
+theorem cls_fieldsDistinct : FieldsDistinct clsFac.L := by
+  intro c hc
+  have : c ∈ MS.assocClasses Legacy.Sample.lang := hc
+  revert c
+  decide
+
+theorem nodup_one {α : Type} (x : α) : [x].Nodup := List.nodup_cons.2 ⟨List.not_mem_nil, List.nodup_nil⟩
+
+/-- a document that is one asset entry satisfies the hypotheses of `process_model_tie_class` (whatever its key) -/
+theorem wf_one_asset (fac : Factory) (nested : Bool) (k : Key) (en : OldAssetEntry) (ok : Key → Bool)
+    (h1 : ((assetDefs en).map (·.1)).Nodup) (h2 : ok k = (assetDefs en).all (fun p => fac.floatOk p.2)) :
+    OldWf fac.L nested { assets := [(k, en)] } ∧ DefsOkOf fac { assets := [(k, en)] } ok := by
+  refine ⟨⟨fun e he => ?_, (fun a ha => nomatch ha), List.nodup_nil, (fun e he => nomatch he)⟩, fun e he => ?_⟩
+  · rw [List.mem_singleton.1 he]; exact h1
+  · rw [List.mem_singleton.1 he]; exact h2
+
+/-- … one association entry of the class `NetCon` with its fields in the declared order -/
+theorem wf_one_netcon (nested : Bool) (l r : List Key) (ok : Key → Bool) :
+    OldWf clsFac.L nested { associations := [{ metaconcept := "NetCon", lf := "hosts", left := l, rf := "nets", right := r }] } ∧
+    DefsOkOf clsFac { associations := [{ metaconcept := "NetCon", lf := "hosts", left := l, rf := "nets", right := r }] } ok := by
+  refine ⟨⟨(fun e he => nomatch he), fun a ha => ?_, List.nodup_nil, (fun e he => nomatch he)⟩, (fun e he => nomatch he)⟩
+  rw [List.mem_singleton.1 ha]
+  refine ⟨?_, fun _ => ?_, ?_⟩
+  · show "hosts" ≠ "nets"; decide
+  · show "hosts" ≠ "metaconcept" ∧ "nets" ≠ "metaconcept" ∧ "hosts" ≠ "association" ∧ "nets" ≠ "association"; decide
+  intro c hc
+  have h : (MS.assocClasses Legacy.Sample.lang).find? (·.cls = "NetCon") =
+      some ⟨"NetCon", "hosts", "Host", none, "nets", "Net", none⟩ := by decide
+  have hc' : (MS.assocClasses Legacy.Sample.lang).find? (·.cls = "NetCon") = some c := hc
+  rw [h] at hc'
+  injection hc' with hc'
+  subst hc'
+  show ¬ ("hosts" = "nets" ∧ "nets" = "hosts"); decide
+
+/-- … one attacker (assets, if any, as given) -/
+theorem wf_attackers (fac : Factory) (nested : Bool) (assets : List (Key × OldAssetEntry)) (k : Key)
+    (t : Ser.AttackerEntry) (ok : Key → Bool)
+    (h1 : ∀ e ∈ assets, ((assetDefs e.2).map (·.1)).Nodup)
+    (h2 : ∀ e ∈ assets, ok e.1 = (assetDefs e.2).all (fun p => fac.floatOk p.2)) (h3 : (t.entry.map (·.1)).Nodup) :
+    OldWf fac.L nested { assets := assets, attackers := [(k, t)] } ∧
+    DefsOkOf fac { assets := assets, attackers := [(k, t)] } ok := by
+  refine ⟨⟨h1, (fun a ha => nomatch ha), nodup_one _, fun e he => ?_⟩, h2⟩
+  rw [List.mem_singleton.1 he]; exact h3
+
+/-! #### one fault, two names -/
+
+/-- **(`AttributeError`, `lookupError`)**, asset loop: an entry of a class the language does not have -/
+theorem old_class_unknown_asset_class :
+    let d : OldDoc := { assets := [(.i 1, .full "h" "Nosuch" [])] }
+    (OldWf clsFac.L true d ∧ DefsOkOf clsFac d (fun _ => true)) ∧
+    updater_process_model clsFiles clsEnv (encOld true "m" d) clsFac = .error (.py .attributeError) ∧
+    loadOld Legacy.Sample.lang (fun _ => true) d = .error .lookupError :=
+  ⟨wf_one_asset clsFac true _ _ _ (by decide) (by decide), raisesL_eq (by decide +kernel), rejects_eq (by decide +kernel)⟩
+
+/-- **(`AttributeError`, `lookupError`)**, association loop: an entry of a class the language does not have -/
+theorem old_class_unknown_assoc_class :
+    let d : OldDoc := { associations := [{ metaconcept := "Nosuch", lf := "hosts", left := [], rf := "nets", right := [] }] }
+    updater_process_model clsFiles clsEnv (encOld true "m" d) clsFac = .error (.py .attributeError) ∧
+    loadOld Legacy.Sample.lang (fun _ => true) d = .error .lookupError :=
+  ⟨raisesL_eq (by decide +kernel), rejects_eq (by decide +kernel)⟩
+
+/-- **(`ValueError`, `validation`)**: a member id of an association that is not a number — Python `int(id)`, the hand
+model's `Ser.resolveIds` does not tell it from an unknown id -/
+theorem old_class_member_not_int (k : Key) (hk : k.toInt? = none) :
+    let d : OldDoc := { associations := [{ metaconcept := "NetCon", lf := "hosts", left := [k], rf := "nets", right := [] }] }
+    (OldWf clsFac.L true d ∧ DefsOkOf clsFac d (fun _ => true)) ∧
+    updater_process_model clsFiles clsEnv (encOld true "m" d) clsFac = .error (.py .valueError) ∧
+    loadOld Legacy.Sample.lang (fun _ => true) d = .error .validation := by
+  intro d
+  have hm : [k].mapM Key.toInt? = none := by rw [List.mapM_cons, hk]; rfl
+  have hwf := wf_one_netcon true [k] [] (fun _ => true)
+  refine ⟨hwf, ?_, ?_⟩
+  · refine process_model_first_assoc_err clsFiles clsEnv clsFac true "m" d _ [] rfl rfl _ ?_
+    exact assocBody_left_not_int clsEnv clsFac true _ (hwf.1.assocs _ List.mem_cons_self) _
+      ⟨"NetCon", "hosts", "Host", none, "nets", "Net", none⟩
+      (show (MS.assocClasses Legacy.Sample.lang).find? (·.cls = "NetCon") = some _ from by decide) (by decide) hm
+  · show (loadOldAssoc Legacy.Sample.lang {} _ >>= _) >>= _ = _
+    rw [loadOld_left_not_int _ _ _ hm]; rfl
+
+/-- **(`ValueError`, `lookupError`)**: the asset id of an entry point that is not a number — Python `int(asset_id)`,
+`Ser.loadAttacker` does not tell it from an unknown id -/
+theorem old_class_entry_point_not_int (k : Key) (hk : k.toInt? = none) :
+    let d : OldDoc := { attackers := [(.i 3, { name := "eve", entry := [(k, ["access"])] })] }
+    (OldWf clsFac.L true d ∧ DefsOkOf clsFac d (fun _ => true)) ∧
+    updater_process_model clsFiles clsEnv (encOld true "m" d) clsFac = .error (.py .valueError) ∧
+    loadOld Legacy.Sample.lang (fun _ => true) d = .error .lookupError := by
+  intro d
+  have hwf := wf_attackers clsFac true [] (.i 3) { name := "eve", entry := [(k, ["access"])] } (fun _ => true)
+    (fun e he => nomatch he) (fun e he => nomatch he) (nodup_one _)
+  refine ⟨hwf, ?_, ?_⟩
+  · refine process_model_first_attacker_err clsFiles clsEnv clsFac true "m" d _ [] rfl rfl rfl _ ?_
+    exact attackerBody_ep_not_int clsEnv d.attackers hwf.1.attackers _ List.mem_cons_self
+      (nodup_one _) (k, ["access"]) [] rfl hk _
+  · simp only [loadOld, Ser.loadAttacker, show (Key.i 3).toInt? = some 3 from rfl, hk, List.foldlM_cons,
+      List.foldlM_nil, List.mapM_cons, bind, Except.bind, pure, Except.pure, Option.bind_none, Option.map_none, d]
+
+/-! #### Python does not raise (`unmodelled`), the hand model rejects -/
+
+/-- **(`unmodelled`, `validation`)**: a `defenses` key that is not a defense of the class (pjs accepts the assignment) -/
+theorem old_class_unknown_defense :
+    let d : OldDoc := { assets := [(.i 1, .full "h" "Host" [("nosuch", "0.5")])] }
+    (OldWf clsFac.L true d ∧ DefsOkOf clsFac d (fun _ => true)) ∧
+    updater_process_model clsFiles clsEnv (encOld true "m" d) clsFac = .error .unmodelled ∧
+    loadOld Legacy.Sample.lang (fun _ => true) d = .error .validation :=
+  ⟨wf_one_asset clsFac true _ _ _ (by decide) (by decide), raisesL_eq (by decide +kernel), rejects_eq (by decide +kernel)⟩
+
+/-- **(`unmodelled`, `lookupError`)**: an entry point for an asset id that is not in the file (Python stores `(None, steps)`) -/
+theorem old_class_unknown_entry_point :
+    let d : OldDoc := { assets := [(.i 1, .full "h" "Host" [])],
+                        attackers := [(.i 3, { name := "eve", entry := [(.i 7, ["access"])] })] }
+    (OldWf clsFac.L true d ∧ DefsOkOf clsFac d (fun _ => true)) ∧
+    updater_process_model clsFiles clsEnv (encOld true "m" d) clsFac = .error .unmodelled ∧
+    loadOld Legacy.Sample.lang (fun _ => true) d = .error .lookupError :=
+  ⟨wf_attackers clsFac true _ _ _ _ (by decide) (by decide) (by decide),
+   raisesL_eq (by decide +kernel), rejects_eq (by decide +kernel)⟩
+
+/-! #### two faults in one entry: the hand model converts the key of the entry first, the Python last -/
+
+theorem loadOld_key_not_int (L : Lang) (ok : Key → Bool) (k : Key) (hk : k.toInt? = none) (en : OldAssetEntry) :
+    loadOld L ok { assets := [(k, en)] } = .error .valueError := by
+  show (loadOldAsset L ok {} (k, en) >>= _) >>= _ = _
+  unfold loadOldAsset
+  simp only [hk]
+  rfl
+
+/-- **(`AttributeError`, `valueError`)**: an asset entry of an unknown class whose key is not a number -/
+theorem old_class_unknown_asset_class_bad_key (k : Key) (hk : k.toInt? = none) :
+    let d : OldDoc := { assets := [(k, .full "h" "Nosuch" [])] }
+    (OldWf clsFac.L true d ∧ DefsOkOf clsFac d (fun _ => true)) ∧
+    updater_process_model clsFiles clsEnv (encOld true "m" d) clsFac = .error (.py .attributeError) ∧
+    loadOld Legacy.Sample.lang (fun _ => true) d = .error .valueError :=
+  ⟨wf_one_asset clsFac true _ _ _ (by decide) (by decide), rfl, loadOld_key_not_int _ _ k hk _⟩
+
+/-- **(`ValidationError`, `valueError`)**: a defense value out of range in an entry whose key is not a number -/
+theorem old_class_bad_defense_value_bad_key (k : Key) (hk : k.toInt? = none) :
+    let d : OldDoc := { assets := [(k, .full "h" "Host" [("patched", "2.0")])] }
+    (OldWf clsFac.L true d ∧ DefsOkOf clsFac d (fun _ => false)) ∧
+    updater_process_model clsFiles clsEnv (encOld true "m" d) clsFac = .error .validation ∧
+    loadOld Legacy.Sample.lang (fun _ => false) d = .error .valueError :=
+  ⟨wf_one_asset clsFac true _ _ _ (by decide) (by decide), rfl, loadOld_key_not_int _ _ k hk _⟩
+
+/-- **(`unmodelled`, `valueError`)**: a `defenses` key that is not a defense of the class, in an entry whose key is
+not a number (likewise: an attacker whose key is not a number with an entry point for an unknown asset id) -/
+theorem old_class_unknown_defense_bad_key (k : Key) (hk : k.toInt? = none) :
+    let d : OldDoc := { assets := [(k, .full "h" "Host" [("nosuch", "0.5")])] }
+    (OldWf clsFac.L true d ∧ DefsOkOf clsFac d (fun _ => true)) ∧
+    updater_process_model clsFiles clsEnv (encOld true "m" d) clsFac = .error .unmodelled ∧
+    loadOld Legacy.Sample.lang (fun _ => true) d = .error .valueError :=
+  ⟨wf_one_asset clsFac true _ _ _ (by decide) (by decide), rfl, loadOld_key_not_int _ _ k hk _⟩
+
+/-- the eight pairs are exactly what `OldErrAgree` adds to `oldErrAbs` -/
+theorem oldErrAgree_iff (e : LErr) (er : MS.Err) :
+    OldErrAgree e er ↔ oldErrAbs e = some er ∨
+      (e, er) ∈ [(.unmodelled, .validation), (.unmodelled, .lookupError), (.unmodelled, .valueError),
+                 (.py .attributeError, .lookupError), (.py .attributeError, .valueError), (.validation, .valueError),
+                 (.py .valueError, .validation), (.py .valueError, .lookupError)] := by
+  cases e with
+  | py p => cases p <;> cases er <;> decide
+  | _ => cases er <;> decide
+
+/-- … and none of them is an agreement of classes -/
+theorem oldErr_disagreements_genuine :
+    ∀ p ∈ [((.unmodelled : LErr), (.validation : MS.Err)), (.unmodelled, .lookupError), (.unmodelled, .valueError),
+           (.py .attributeError, .lookupError), (.py .attributeError, .valueError), (.validation, .valueError),
+           (.py .valueError, .validation), (.py .valueError, .lookupError)], oldErrAbs p.1 ≠ some p.2 := by
+  decide
+
 end MalVerif.PyLeg.Tie
+
+
+
